@@ -16,7 +16,7 @@ fn pad_and_blob(pad4: usize, data: Vec<u8>) -> Program {
 
 /// full product: blob length 0..=1023 x all 255 aligned start residues
 pub fn product(ctx: &Ctx) {
-    let len = ctx.pick("len", 1024);
+    let len = ctx.pick("len", if ctx.tier_thorough { 3072 } else { 1024 });
     let pad4 = ctx.pick("pad4", 255);
     let p = pad_and_blob(pad4, pattern(len as u64, len));
     // the payload source delivers its data in full, in halves or alternating (rotated over the product)
